@@ -28,6 +28,9 @@ const KEY_TRUNCATED: &str = "C13:ribbit:truncated-v1-mime-answer-returned-as-suc
 
 /// Infrastructure trouble noticed inside section closures (reported after the section).
 static INFRA: Mutex<Vec<String>> = Mutex::new(Vec::new());
+/// Failures that did not reproduce on re-execution (loopback interference under load): noted in the
+/// evidence, never a verdict and never an exit status.
+static TRANSIENT: Mutex<Vec<String>> = Mutex::new(Vec::new());
 
 fn infra(s: String) {
     let mut g = INFRA.lock().unwrap();
@@ -669,8 +672,13 @@ fn stable(section: &'static str, run: impl Fn() -> Verdict) -> Verdict {
             return again;
         }
     }
-    infra(format!("section {section}: a failure did not reproduce in two further executions: key={} msg={}", f.key, short_n(&f.msg, 1500)));
-    Verdict::pass()
+    {
+        let mut g = TRANSIENT.lock().unwrap();
+        if g.len() < 20 {
+            g.push(format!("section {section}: a failure did not reproduce in two further executions: key={} msg={}", f.key, short_n(&f.msg, 600)));
+        }
+    }
+    Verdict::pass().class("failure-not-reproduced-on-re-execution")
 }
 
 fn short_n(s: &str, n: usize) -> String {
@@ -954,6 +962,10 @@ fn drain_infra(ck: &mut Check) {
     let msgs: Vec<String> = std::mem::take(&mut *INFRA.lock().unwrap());
     for m in msgs {
         ck.infra(m);
+    }
+    let notes: Vec<String> = std::mem::take(&mut *TRANSIENT.lock().unwrap());
+    for m in notes {
+        ck.note_transient(m);
     }
 }
 
